@@ -6,170 +6,17 @@ corresponding theorem stops checking.
 -/
 import JPV.Generated
 import JPV.Impl.Parse
-namespace JPV.Tables
-open JPV JPV.Impl
-
-def kindOfName : String → Option TokKind
-  | "EOF" => some .eof | "ERROR" => some .error | "INIT" => some .init | "COLON" => some .colon
-  | "COMMA" => some .comma | "DOUBLE_DOT" => some .doubleDot | "FILTER" => some .filter
-  | "INDEX" => some .index | "LBRACKET" => some .lbracket | "PROPERTY" => some .property
-  | "RBRACKET" => some .rbracket | "ROOT" => some .root | "WILD" => some .wild | "AND" => some .and
-  | "CURRENT" => some .current | "DOUBLE_QUOTE_STRING" => some .dqString | "EQ" => some .eq
-  | "FALSE" => some .false_ | "FLOAT" => some .float | "FUNCTION" => some .function | "GE" => some .ge
-  | "GT" => some .gt | "INT" => some .int | "LE" => some .le | "LPAREN" => some .lparen | "LT" => some .lt
-  | "NE" => some .ne | "NOT" => some .not | "NULL" => some .null | "OR" => some .or
-  | "RPAREN" => some .rparen | "SINGLE_QUOTE_STRING" => some .sqString | "TRUE" => some .true_
-  | _ => none
-
-def allKinds : List TokKind :=
-  [.eof, .error, .init, .colon, .comma, .doubleDot, .filter, .index, .lbracket, .property, .rbracket,
-   .root, .wild, .and, .current, .dqString, .eq, .false_, .float, .function, .ge, .gt, .int, .le,
-   .lparen, .lt, .ne, .not, .null, .or, .rparen, .sqString, .true_]
-
-def lookupS {β} (k : String) : List (String × β) → Option β
-  | [] => none
-  | (a, b) :: r => if a = k then some b else lookupS k r
-
-/-- a generated table keyed by token-type name, re-keyed by the model's token kinds
-(`none` if some name is not a token kind the model knows) -/
-def tableK {β} (t : List (String × β)) : Option (List (TokKind × β)) :=
-  t.mapM (fun p => (kindOfName p.1).map (fun k => (k, p.2)))
-
-def lookupK {β} (k : TokKind) : List (TokKind × β) → Option β
-  | [] => none
-  | (a, b) :: r => if a = k then some b else lookupK k r
-
-def constOf (n : String) : Int := (lookupS n Generated.precConsts).getD 0
-
-/-- `PRECEDENCES.get(kind, PRECEDENCE_LOWEST)` of the source, for every token kind of the model -/
-theorem precedences_model :
-    (match tableK Generated.precedences with
-     | some t => allKinds.all (fun k => (Impl.precedence k : Int) = (lookupK k t).getD (constOf "PRECEDENCE_LOWEST"))
-     | none => false) = true := by decide +kernel
-
-theorem precedence_consts :
-    ((Impl.precLowest : Int), (Impl.precOr : Int), (Impl.precAnd : Int), (Impl.precRelational : Int), (Impl.precPrefix : Int)) =
-    (constOf "PRECEDENCE_LOWEST", constOf "PRECEDENCE_LOGICAL_OR", constOf "PRECEDENCE_LOGICAL_AND",
-     constOf "PRECEDENCE_RELATIONAL", constOf "PRECEDENCE_PREFIX") := by decide +kernel
-
-def opText : BinOp → String
-  | .logical .and => "&&" | .logical .or => "||"
-  | .cmp .eq => "==" | .cmp .ne => "!=" | .cmp .lt => "<" | .cmp .le => "<=" | .cmp .gt => ">" | .cmp .ge => ">="
-
-/-- `BINARY_OPERATORS` and `COMPARISON_OPERATORS` -/
-theorem binary_operators_model :
-    (match tableK Generated.binaryOperators with
-     | some t => allKinds.all (fun k => (Impl.binaryOp k).map opText = lookupK k t)
-     | none => false) = true := by decide +kernel
-
-theorem comparison_operators_model :
-    (match tableK Generated.binaryOperators with
-     | some t => allKinds.all (fun k => Impl.isComparisonTok k =
-        (match lookupK k t with
-         | some x => Generated.comparisonOperators.contains x
-         | none => false))
-     | none => false) = true := by decide +kernel
-
-def handlerName : Handler → String
-  | .string => "parse_string_literal" | .boolean => "parse_boolean" | .float => "parse_float_literal"
-  | .function => "parse_function_extension" | .int => "parse_integer_literal"
-  | .grouped => "parse_grouped_expression" | .prefix => "parse_prefix_expression" | .null => "parse_null"
-  | .rootQuery => "parse_root_query" | .relQuery => "parse_relative_query"
-
-/-- the two dispatch maps -/
-theorem token_map_model :
-    (match tableK Generated.tokenMap with
-     | some t => allKinds.all (fun k => (Impl.tokenMap k).map handlerName = lookupK k t)
-     | none => false) = true := by decide +kernel
-
-theorem function_argument_map_model :
-    (match tableK Generated.functionArgumentMap with
-     | some t => allKinds.all (fun k => (Impl.functionArgumentMap k).map handlerName = lookupK k t)
-     | none => false) = true := by decide +kernel
-
-/-- the regular expressions the scanners of `Impl.Lex` were written against -/
-theorem regexes_model : Generated.regexes =
-    [("RE_FALSE", "false(?![a-z_0-9(])"),
-     ("RE_FLOAT", "(:?-?[0-9]+\\.[0-9]+(?:[eE][+-]?[0-9]+)?)|(-?[0-9]+[eE]-[0-9]+)"),
-     ("RE_FUNCTION_NAME", "[a-z][a-z_0-9]*"),
-     ("RE_INDEX", "-?[0-9]+"),
-     ("RE_INT", "-?[0-9]+(?:[eE]\\+?[0-9]+)?"),
-     ("RE_NULL", "null(?![a-z_0-9(])"),
-     ("RE_PROPERTY", "[\\u0080-\\U0010FFFFa-zA-Z_][\\u0080-\\U0010FFFFa-zA-Z0-9_]*"),
-     ("RE_TRUE", "true(?![a-z_0-9(])"),
-     ("RE_WHITESPACE", "[ \\n\\r\\t]+")] ∧
-    Generated.regexFlags.all (fun p => p.2 = 32) = true := by decide +kernel
-
-/-- `ESCAPES` -/
-theorem escapes_model :
-    (List.range 0x250).all (fun n =>
-      Impl.isEscapeChar (Char.ofNat n) = Generated.escapes.contains (String.singleton (Char.ofNat n))) = true ∧
-    Generated.escapes.all (fun s => s.length = 1 && s.toList.all (fun c => c.toNat < 0x250)) = true := by
-  decide +kernel
-
-/-- integer range and recursion limit defaults of `JSONPathEnvironment` -/
-theorem env_defaults_model :
-    let e : Impl.Env := {}
-    Generated.envDefaults = [("max_int_index", e.maxIdx), ("min_int_index", e.minIdx),
-      ("max_recursion_depth", e.maxDepth), ("nondeterministic", if e.nondet then 1 else 0)] := by decide +kernel
-
-def tyName : Ty → String
-  | .value => "VALUE" | .logical => "LOGICAL" | .nodes => "NODES"
-
-/-- signatures of the built-in functions -/
-theorem builtin_sigs_model : Generated.builtins =
-    [("count", "Count", Impl.countFunc.argTypes.map tyName, tyName Impl.countFunc.ret),
-     ("length", "Length", Impl.lengthFunc.argTypes.map tyName, tyName Impl.lengthFunc.ret),
-     ("match", "Match", ["VALUE", "VALUE"], "LOGICAL"),
-     ("search", "Search", ["VALUE", "VALUE"], "LOGICAL"),
-     ("value", "Value", Impl.valueFunc.argTypes.map tyName, tyName Impl.valueFunc.ret)] := by decide +kernel
-
-/-- serializer precedence constants (filter_expressions.py) -/
-def serConst (n : String) : Int := (lookupS n Generated.serPrecConsts).getD 0
-
-/-- every exception class of exceptions.py derives from JSONPathError -/
-theorem exceptions_model :
-    Generated.excParents.all (fun p => p.1 = "JSONPathError" || p.2.contains "JSONPathError") = true ∧
-    (["JSONPathSyntaxError", "JSONPathTypeError", "JSONPathIndexError", "JSONPathNameError",
-      "JSONPathRecursionError", "JSONPathLexerError"].all
-        (fun n => (Generated.excParents.map Prod.fst).contains n)) = true := by decide +kernel
-
-/-- the regex engine is called with the pattern and the subject only (no flags), and the
-only exceptions swallowed are `TypeError` and `re.error` -/
-theorem re_calls_model : Generated.reCalls =
-    [("function_extensions/match.py", "re.fullmatch", 2, []),
-     ("function_extensions/match.py", "except", 1, ["(TypeError,re.error)"]),
-     ("function_extensions/search.py", "re.search", 2, []),
-     ("function_extensions/search.py", "except", 1, ["(TypeError,re.error)"])] := by decide +kernel
-
-/-! ### effect scan (C14, C16, C17) -/
-
-/-- Names that are local variables of the function that mutates them (fresh per call). -/
-def localNames : List String :=
-  ["_args", "parts", "unescaped", "selectors", "function_arguments", "parenthesized_arguments", "queue"]
-
-/-- A store is benign when its target cannot outlive the call: the `Lexer` and
-`TokenStream` objects created inside one `compile()` call, local lists, the
-exception in flight, and the environment's own set-up called from `__init__`. -/
-def benignWrite (w : String × String) : Bool :=
-  "lex.py:".toList.isPrefixOf w.1.toList ||
-  "tokens.py:TokenStream.".toList.isPrefixOf w.1.toList ||
-  (w.1 = "environment.py:JSONPathEnvironment.setup_function_extensions" && w.2 = "self.function_extensions[]") ||
-  (w.1 = "selectors.py:FilterSelector.resolve" && w.2 = "err.token") ||
-  localNames.any (fun n => w.2 = "call " ++ n ++ ".append" || w.2 = "call " ++ n ++ ".extend" ||
-    w.2 = "call " ++ n ++ ".popleft" || w.2 = "call " ++ n ++ ".pop")
-
-/-- no attribute store, global rebinding or container mutation on any object that
-outlives a call (selectors, segments, expressions, queries, nodes, environments,
-module globals, the document) -/
-theorem writes_benign : Generated.writes.all benignWrite = true := by decide +kernel
-
-/-- every call into `random` is one of the five sites the nondeterministic model covers -/
-theorem random_sites_model : Generated.randomCalls =
-    [("segments.py:JSONPathRecursiveDescentSegment._nondeterministic_visit", "random.choice"),
-     ("segments.py:JSONPathRecursiveDescentSegment._nondeterministic_visit", "random.sample"),
-     ("segments.py:_nondeterministic_children", "random.shuffle"),
-     ("selectors.py:FilterSelector.resolve", "random.shuffle"),
-     ("selectors.py:WildcardSelector.resolve", "random.shuffle")] := by decide +kernel
-
-end JPV.Tables
+import JPV.Tables.T_precedences_model
+import JPV.Tables.T_precedence_consts
+import JPV.Tables.T_binary_operators_model
+import JPV.Tables.T_comparison_operators_model
+import JPV.Tables.T_token_map_model
+import JPV.Tables.T_function_argument_map_model
+import JPV.Tables.T_regexes_model
+import JPV.Tables.T_escapes_model
+import JPV.Tables.T_env_defaults_model
+import JPV.Tables.T_builtin_sigs_model
+import JPV.Tables.T_exceptions_model
+import JPV.Tables.T_re_calls_model
+import JPV.Tables.T_writes_benign
+import JPV.Tables.T_random_sites_model
